@@ -4,6 +4,7 @@
 package core
 
 import (
+	"go/parser"
 	"encoding/json"
 	"fmt"
 	"go/ast"
@@ -99,6 +100,26 @@ func PackageVarWrites(p *packages.Package) []string {
 	}
 	sort.Strings(out)
 	return out
+}
+
+// importsOnly: the file declares nothing but imports (the usual tools.go that pins tool dependencies behind a
+// build tag): whatever configuration compiles it, it adds no code.
+func importsOnly(path string) bool {
+	f, err := parser.ParseFile(token.NewFileSet(), path, nil, parser.SkipObjectResolution)
+	if err != nil {
+		return false
+	}
+	return importsOnlyAST(f)
+}
+
+func importsOnlyAST(f *ast.File) bool {
+	for _, d := range f.Decls {
+		gd, ok := d.(*ast.GenDecl)
+		if !ok || gd.Tok != token.IMPORT {
+			return false
+		}
+	}
+	return true
 }
 
 // guardedUniverse: the predeclared identifiers whose meaning the rules rely on
@@ -229,6 +250,15 @@ func (c *Ctx) Load() error {
 			c.PkgByID[p.PkgPath] = p
 			if strings.HasPrefix(p.PkgPath, RepoModule) {
 				for _, e := range p.Errors {
+					if strings.Contains(e.Msg, "build constraints exclude all Go files") {
+						all := len(p.IgnoredFiles) > 0
+						for _, f := range p.IgnoredFiles {
+							all = all && (!strings.HasSuffix(f, ".go") || strings.HasSuffix(f, "_test.go") || importsOnly(f))
+						}
+						if all {
+							continue // a tools-style package: imports only
+						}
+					}
 					errs = append(errs, e.Error())
 				}
 			}
@@ -260,7 +290,7 @@ func (c *Ctx) Load() error {
 			// the analysis sees one build configuration: a file that is compiled only under some other GOOS/GOARCH/tag
 			// (or excluded from this one) would escape it, so the repository must not use build constraints
 			for _, f := range p.IgnoredFiles {
-				if strings.HasSuffix(f, ".go") && !strings.HasSuffix(f, "_test.go") {
+				if strings.HasSuffix(f, ".go") && !strings.HasSuffix(f, "_test.go") && !importsOnly(f) {
 					c.Fail("LOAD", "file excluded by build constraints: "+strings.TrimPrefix(f, c.Repo+"/"), "a Go file of the repository is not part of the analysed build configuration", "", "S0")
 				}
 			}
@@ -270,7 +300,7 @@ func (c *Ctx) Load() error {
 						break
 					}
 					for _, cm := range cg.List {
-						if strings.HasPrefix(cm.Text, "//go:build") || strings.HasPrefix(cm.Text, "// +build") {
+						if (strings.HasPrefix(cm.Text, "//go:build") || strings.HasPrefix(cm.Text, "// +build")) && !importsOnlyAST(f) {
 							c.Fail("LOAD", "build constraint in "+c.PosStr(p.Fset, cm.Pos()), "a file with a build constraint is compiled only in some configurations; the analysis covers one", "", "S0")
 						}
 					}
